@@ -180,12 +180,12 @@ def run(ctx, rep):
             for c in b.calls:
                 src = None
                 if c.name == PI and is_user_call(c):
-                    src = canon(b.pexpr_operand(c.args[0]), 0, 4)
+                    src = canon(b.pexpr_operand(c.args[0], 0, frozenset(), (c.bb, "t")), 0, 4)
                 else:
                     for a in c.args[1:]:
                         e = b.pexpr_operand(a)
                         if e[0] == 'fnitem' and e[1] == PI:
-                            src = canon(b.pexpr_operand(c.args[0]), 0, 4)
+                            src = canon(b.pexpr_operand(c.args[0], 0, frozenset(), (c.bb, "t")), 0, 4)
                 if src is None:
                     continue
                 uses += 1
